@@ -5,6 +5,7 @@ import (
 	"errors"
 	"fmt"
 	"reflect"
+	"sort"
 	"strings"
 
 	"github.com/graphql-go/graphql/gqlerrors"
@@ -158,6 +159,17 @@ func getOperationRootType(schema Schema, operation ast.Definition) (*Object, err
 	}
 }
 
+// sortedKeys gives the dethunkers a deterministic order: the order in
+// which deferred values are forced decides the order of field errors.
+func sortedKeys(m map[string]interface{}) []string {
+	keys := make([]string, 0, len(m))
+	for k := range m {
+		keys = append(keys, k)
+	}
+	sort.Strings(keys)
+	return keys
+}
+
 // dethunkQueue is a structure that allows us to execute a classic breadth-first traversal.
 type dethunkQueue struct {
 	DethunkFuncs []func()
@@ -187,7 +199,8 @@ func dethunkMapWithBreadthFirstTraversal(finalResults map[string]interface{}) {
 }
 
 func dethunkMapBreadthFirst(m map[string]interface{}, dethunkQueue *dethunkQueue) {
-	for k, v := range m {
+	for _, k := range sortedKeys(m) {
+		v := m[k]
 		if f, ok := v.(func() interface{}); ok {
 			m[k] = f()
 		}
@@ -234,7 +247,8 @@ func dethunkValueDepthFirst(v interface{}) interface{} {
 // to conform to the graphql-js reference implementation, which requires serial (depth-first)
 // implementations for mutation selects.
 func dethunkMapDepthFirst(m map[string]interface{}) {
-	for k, v := range m {
+	for _, k := range sortedKeys(m) {
+		v := m[k]
 		if f, ok := v.(func() interface{}); ok {
 			m[k] = f()
 		}
